@@ -32,7 +32,9 @@ theorem load_registry_published :
 /-- integers from −48 to 159 travel as the single byte `i + 0x50` -/
 theorem imm_window_published : Gen.immLo = IMM_LO ∧ Gen.immHi = IMM_HI ∧ Gen.immBase = IMM_BASE := by decide
 
-/-- length fields and floats are packed `!B`, `!L`, `!d`, `!dd` -/
+/-- length fields and floats are packed `!B`, `!L`, `!d`, `!dd`.  GUARD, not a comparison: the generator emits the
+literal `true` after checking the four `Struct` formats and refuses to generate otherwise (the failure then is
+"translator: Brine.lean: inexpressible"), so this statement itself cannot turn false. -/
 theorem struct_formats_published : Gen.structFormatsStandard = true := by decide
 
 theorem msg_kinds_published : Gen.Consts.msgs = msgTable
@@ -73,11 +75,6 @@ theorem gen_eq_published :
    exc_published.1, consts_complete, frame_consts_published.1, frame_consts_published.2.1,
    frame_consts_published.2.2.2.2.2.2.1, frame_consts_published.2.2.2.2.2.2.2,
    imm_window_published.1, imm_window_published.2.1, imm_window_published.2.2⟩
-
-/-- the documented table is usable as a code: tags pairwise distinct and outside the immediate bytes -/
-theorem tag_table_unambiguous :
-    (tagTable.map (·.2)).Nodup
-    ∧ (tagTable.map (·.2)).all (fun t => decide (((t : Nat) : Int) < IMM_LO + IMM_BASE)) = true := by decide
 
 /-! ### (2) the code's encoder is the reference encoder -/
 
@@ -149,11 +146,6 @@ theorem frame_layout (deflate : Bytes → Bytes) (compress : Bool) (data : Bytes
       intro h; apply hc; simpa [COMPRESSION_THRESHOLD] using h
     rw [if_neg this, if_pos h1, if_neg hc, frameOf_explicit 0 _ (by decide)]
 
-/-- the same, including the refusal of a payload whose length does not fit four bytes -/
-theorem frame_eq_spec (deflate : Bytes → Bytes) (compress : Bool) (data : Bytes) :
-    Code.channelSend deflate compress data = sendFrame deflate compress data :=
-  channelSend_eq deflate compress data
-
 /-- the frame of C05's independently written model of `Channel.send` (RpycModel/Wire/Model.lean, the one
 C05's stream theorems are about) is this same published frame -/
 theorem frame_eq_wire_model (z : Wire.ZlibFns) (compress : Bool) (data : Bytes) :
@@ -182,12 +174,6 @@ theorem recv_accepts_conforming_frame (deflate' : Bytes → Bytes) (inflate : By
       rw [channelRecv_frameOf inflate 0 _ rest hl (by decide)]
       simp [Code.recvResult]
     · simp at h
-
-/-- a sender may also compress below the threshold or not at all above it: the flag alone decides -/
-theorem recv_follows_flag (inflate : Bytes → Option Bytes) (flag : Nat) (payload rest : Bytes)
-    (hl : payload.length < 2 ^ 32) (hf : flag < 256) :
-    Code.channelRecv inflate (frameOf flag payload ++ rest) = Code.recvResult inflate flag payload rest :=
-  channelRecv_frameOf inflate flag payload rest hl hf
 
 /-! ### (6) messages -/
 
@@ -352,30 +338,61 @@ theorem recorded_unbox_matches_model :
         (valSize e.2.1 + 2) e.2.1) == e.2.2) = true
     ∧ Gen.Recorded.unboxed.length = 10 := by decide +kernel
 
-/-- **what `_dispatch_request` sent back** on seven published requests (fed in non-shortest encodings): replies for
-ping / getroot / a keyword-argument call, `MSG_EXCEPTION` with vinegar's tuple
-`((module, name), args, ((attr, value)…), traceback text)` for a built-in, a custom and an uncallable-target
-error, and the marker `EXC_STOP_ITERATION`; each a single published message with the request's sequence number -/
+/-- **what `_dispatch_request` sent back** on fourteen published requests (fed in non-shortest encodings): every one
+got exactly one response, a published message with the request's sequence number; the replies to ping, getroot and a
+keyword-argument call (`c=3, b=2` reordered) and the marker for a bare StopIteration are exactly what the model builds -/
 theorem recorded_responses_published :
-    Gen.Recorded.served.map (fun e => (answeredWith 2 e, answeredWith 3 e))
-      = [(true, false), (true, false), (false, true), (false, true), (false, true), (true, false), (false, true)]
-    ∧ (Gen.Recorded.served.map (fun e => e.2.map (fun r =>
-          Val.beq r (Code.replyVal 100 (.plain (.tuple [.str [120], .float 0x3ff8000000000000])))
-          || Val.beq r (Code.replyVal 101 (.object probeSvc))
-          || Val.beq r (Code.exceptionVal 104 Code.dumpedStopIteration)
-          || Val.beq r (Code.replyVal 105 (.plain (.tuple [.int 1, .int 2, .int 3])))))).flatten
-        = [true, true, false, false, true, true, false] := by decide +kernel
+    Gen.Recorded.served.all (fun e => answeredWith 2 e || answeredWith 3 e) = true
+    ∧ Gen.Recorded.served.length = 14
+    ∧ isResponse (Code.replyVal 100 (.plain (.tuple [.str [120], .float 0x3ff8000000000000])))
+        (responseTo Gen.Recorded.served 100) = true
+    ∧ isResponse (Code.replyVal 101 (.object probeSvc)) (responseTo Gen.Recorded.served 101) = true
+    ∧ isResponse (Code.exceptionVal 104 Code.dumpedStopIteration) (responseTo Gen.Recorded.served 104) = true
+    ∧ isResponse (Code.replyVal 105 (.plain (.tuple [.int 1, .int 2, .int 3]))) (responseTo Gen.Recorded.served 105) = true := by
+  decide +kernel
+
+/-- **the dumped-exception tuple**, positions compared: `((module, class), args, ((attr, value)…), traceback text)` for a
+built-in exception (`KeyError("k")`), a custom one (`ProbeError("m", 3)` with its public attribute `code = 7`) and an
+uncallable target, without traceback/version (`<traceback denied>`) and under the DEFAULT configuration (traceback
+text `Traceback (most recent call last): …`, `_remote_version` present) -/
+theorem recorded_exceptions_published :
+    dumpedIs [98, 117, 105, 108, 116, 105, 110, 115] [75, 101, 121, 69, 114, 114, 111, 114] (.tuple [.str [107]]) none
+        [60, 116, 114, 97, 99, 101, 98, 97, 99, 107, 32, 100, 101, 110, 105, 101, 100, 62]
+        (responseTo Gen.Recorded.served 102) = true
+    ∧ dumpedIs [103, 101, 110, 95, 112, 114, 111, 116, 111, 95, 99, 111, 110, 115, 116, 115]
+        [80, 114, 111, 98, 101, 69, 114, 114, 111, 114] (.tuple [.str [109], .int 3])
+        (some (.tuple [.str [99, 111, 100, 101], .int 7]))
+        [60, 116, 114, 97, 99, 101, 98, 97, 99, 107, 32, 100, 101, 110, 105, 101, 100, 62]
+        (responseTo Gen.Recorded.served 103) = true
+    ∧ dumpedIs [98, 117, 105, 108, 116, 105, 110, 115] [75, 101, 121, 69, 114, 114, 111, 114] (.tuple [.str [107]]) none
+        [84, 114, 97, 99, 101, 98, 97, 99, 107, 32, 40, 109, 111, 115, 116, 32, 114, 101, 99, 101, 110, 116]
+        (responseTo Gen.Recorded.servedDefault 200) = true
+    ∧ dumpedIs [103, 101, 110, 95, 112, 114, 111, 116, 111, 95, 99, 111, 110, 115, 116, 115]
+        [80, 114, 111, 98, 101, 69, 114, 114, 111, 114] (.tuple [.str [109], .int 3])
+        (some (.tuple [.str [99, 111, 100, 101], .int 7]))
+        [84, 114, 97, 99, 101, 98, 97, 99, 107, 32, 40, 109, 111, 115, 116, 32, 114, 101, 99, 101, 110, 116]
+        (responseTo Gen.Recorded.servedDefault 201) = true
+    ∧ Gen.Recorded.servedDefault.all (fun e => answeredWith 3 e) = true := by
+  decide +kernel
+
+/-- **fixed reply shapes**: what the live handlers answered for repr, str, hash, dir, inspect, buffiter and pickle
+(and every other recorded request) has the shape published for that handler: text, text, integer, a tuple of names,
+a tuple of `(method name, docstring or None)`, a tuple, a byte string -/
+theorem recorded_replies_have_published_shape :
+    Gen.Recorded.served.all replyShapeOk = true
+    ∧ (replyShape.map (·.1)).all (fun h => Gen.Recorded.served.any (fun e =>
+        match Msg.ofVal? e.1, e.2 with
+        | some (.request _ h' _), [r] => h' == h && (match Msg.ofVal? r with
+            | some (.reply _ _) => true
+            | _ => false)
+        | _, _ => false)) = true := by
+  decide +kernel
 
 /-- **`_dispatch` classified nineteen payloads as the model does**: integer, bool, float and complex message
 kinds (Python `==`), a non-integer sequence number, unknown kinds, wrong arities, a non-iterable, a byte string -/
 theorem recorded_dispatch_matches_model :
     Gen.Recorded.classified.all (fun p => Code.dispatchOutcome p.1 == p.2) = true
     ∧ Gen.Recorded.classified.length = 19 := by decide +kernel
-
-/-- the layout tables are usable: every handler number has exactly one layout -/
-theorem handler_args_total :
-    handlerArgs.map (·.1) = handlerTable.map (·.2) ∧ (replyShape.map (·.1)).all (fun h => (handlerArgs.lookup h).isSome) = true := by
-  decide
 
 /-! ### (3), (4) the grammar: every legal form is accepted and means the same; `dump` emits a shortest one -/
 
@@ -419,12 +436,6 @@ theorem enc_in_grammar (v : Val) (hw : v.wf = true) (hr : Renderable v = true) (
   rw [enc_eq_specEnc v hr hs] at he
   exact specEnc_denotes v e hw he
 
-/-- the search over the form table returns a fitting form with a minimal header -/
-theorem pick_is_shortest_fitting (forms : List Form) (n : Nat) (f : Form) (hf : f ∈ forms)
-    (hfit : f.fits n = true) : ∃ g, pick forms n = some g ∧ g ∈ forms ∧ g.fits n = true ∧ g.cost ≤ f.cost := by
-  obtain ⟨g, hg, hle⟩ := pick_min forms n f hf hfit
-  exact ⟨g, hg, (pick_sound forms n g hg).1, (pick_sound forms n g hg).2, hle⟩
-
 /-! ### non-vacuity -/
 
 /-- a `getattr(root, "answer")` request whose first argument is the peer's own object, as published -/
@@ -454,17 +465,6 @@ example : specEnc (.bytes (List.replicate 255 7)) = .ok (0x0e :: 255 :: List.rep
 /-- non-shortest sentences: "abc" with the four-byte length class, a pair with TAG_TUP_L1, 5 as text -/
 example : Denotes [0x0f, 0, 0, 0, 3, 0x61, 0x62, 0x63] (.bytes [0x61, 0x62, 0x63]) :=
   Denotes.bytes [0x61, 0x62, 0x63] ⟨"TAG_STR_L4", TAG_STR_L4, .l4⟩ (by decide) (by decide)
-/-- the small integer 5 written as decimal text (legal, not shortest) -/
-theorem five_as_text : Denotes [0x16, 1, 0x35] (.int 5) := by
-  have h5 : intRepr 5 = [0x35] := by simp [intRepr, natDigits]
-  have := Denotes.intText 5 ⟨"TAG_INT_L1", TAG_INT_L1, .l1⟩ (by decide) (by rw [h5]; decide)
-  rw [h5] at this
-  exact this
-/-- a pair announced with TAG_TUP_L1 whose first member is 5 as text -/
-theorem pair_in_long_form : Denotes [0x14, 2, 0x16, 1, 0x35, 0x00] (.tuple [.int 5, .none]) :=
-  Denotes.tuple [.int 5, .none] ⟨"TAG_TUP_L1", TAG_TUP_L1, .l1⟩ [0x16, 1, 0x35, 0x00] (by decide) (by decide)
-    (DenotesL.cons (.int 5) [.none] [0x16, 1, 0x35] [0x00] five_as_text
-      (DenotesL.cons .none [] [0x00] [] Denotes.none DenotesL.nil))
 example : Brine.load [0x14, 2, 0x16, 1, 0x35, 0x00] = .ok (.tuple [.int 5, .none]) :=
   dec_complete _ _ pair_in_long_form (by decide +kernel)
 /-- … while `dump` of the same value takes 3 bytes, not 6 -/
